@@ -3,6 +3,7 @@ package racesim
 import (
 	"bytes"
 	"fmt"
+	"github.com/vulcand/oxy/v2/internal/holsterv4/collections"
 	"io"
 	"net/http"
 	"net/url"
@@ -169,7 +170,7 @@ func metricsOps(rt *rapid.T, m *memmetrics.RTMetrics) op {
 
 func buildTarget(rt *rapid.T) target {
 	extract, _ := utils.NewExtractor("request.header.Src")
-	kind := rapid.SampledFrom([]string{"connlimit", "ratelimit", "roundrobin", "rebalancer", "roundrobin-sticky", "rebalancer-sticky", "cbreaker", "rtmetrics", "rtmetrics-count", "trace", "stack", "stack"}).Draw(rt, "target")
+	kind := rapid.SampledFrom([]string{"connlimit", "ratelimit", "roundrobin", "rebalancer", "roundrobin-sticky", "rebalancer-sticky", "cbreaker", "rtmetrics", "rtmetrics-count", "ttlmap-count", "trace", "stack", "stack"}).Draw(rt, "target")
 	if only := simkit.Only(); only != "" {
 		kind = only
 	}
@@ -255,6 +256,42 @@ func buildTarget(rt *rapid.T) target {
 		m, err := memmetrics.NewRTMetrics()
 		must(err)
 		return target{name: kind, breaks: true, draw: func(rt *rapid.T) op { return metricsOps(rt, m) }}
+	case "ttlmap-count":
+		// The ttl map (the limiter's store; it has its own lock and is anchored in C09) used directly by concurrent
+		// callers. Each key starts as an entry whose ttl has run out but which nobody has collected yet: readers that
+		// find it expired remove it, writers renew it. Whatever the interleaving, the count of a key afterwards is the
+		// number of increments made in this run (the first one restarts the expired entry, the others add to it).
+		tm := collections.NewTTLMap(4)
+		keys := []string{"k0", "k1"}
+		for _, k := range keys {
+			_, err := tm.Increment(k, 7, 1)
+			must(err)
+		}
+		clock.SimAdvance(2 * time.Second)
+		want := map[string]int{}
+		return target{name: kind, draw: func(rt *rapid.T) op {
+			k := rapid.SampledFrom(keys).Draw(rt, "key")
+			switch rapid.IntRange(0, 3).Draw(rt, "map-op") {
+			case 0:
+				return func() { _, _ = tm.Get(k) }
+			case 1:
+				return func() { _, _, _ = tm.GetInt(k); _ = tm.Len() }
+			default:
+				want[k]++
+				return func() { _, _ = tm.Increment(k, 1, 3600) }
+			}
+		}, audit: func() string {
+			for _, k := range keys {
+				if want[k] == 0 {
+					continue
+				}
+				got, ok, err := tm.GetInt(k)
+				if err != nil || !ok || got != want[k] {
+					return fmt.Sprintf("key %s was incremented %d times (starting from an expired entry), the map reports %d (present=%v, err=%v)", k, want[k], got, ok, err)
+				}
+			}
+			return ""
+		}}
 	case "rtmetrics-count":
 		// "no counter update is lost": every Record must be counted whatever the interleaving (the clock stands still,
 		// nothing ages out). A lost update needs no data race: a check-then-act split across two critical sections loses one too.
